@@ -46,7 +46,7 @@ class C18(Check):
     ASSUMPTIONS = ['invariants are judged after each operation, when client and driver are idle (the poll thread may be '
                    'running: struct/member agreement is read under the module\'s access lock)',
                    'closest allowed value: ties may go either way']
-    PROBES = ('c18.struct-op', 'c18.floatenum-op', 'c18.limit-op', 'c18.inverted-limits', 'c18.control-op',
+    PROBES = ('c18.struct-op', 'c18.subscriber-churn', 'c18.floatenum-op', 'c18.limit-op', 'c18.inverted-limits', 'c18.control-op',
               'c18.driver-op', 'c18.wire-op', 'c18.takeover', 'c18.concurrent-driver-assignment', 'fault.hw-read', 'fault.hw-write', 'c18.stale-controller-output', 'c18.second-output-op', 'c18.concurrent-takeover', 'fault.hw-switch-off')
 
     def gen_case(self, rng, tier):
@@ -57,7 +57,9 @@ class C18(Check):
                  'limits': rng.choice(['min', 'max', 'minmax', 'limits']), 'nctl': rng.choice([1, 2, 3]),
                  'poll': rng.random() < 0.5, 'split': rng.random() < 0.4, 'second_output': rng.random() < 0.5,
                  'fe_hw_max': rng.randrange(len(labels)) if rng.random() < 0.4 else None,
-                 'switch_time': rng.choice([0, 0, 0.05, 0.25])}
+                 'switch_time': rng.choice([0, 0, 0.05, 0.25]),
+                 # other clients subscribe and drop their connection all the time
+                 'churn': rng.choice([0, 0, 1, 2])}
         ops = []
         for _ in range(rng.randrange(3, 26 if tier == 'thorough' else 18)):
             who = rng.choice(['wire', 'wire', 'driver'])
@@ -262,6 +264,23 @@ class C18(Check):
             r = cl.request(text, timeout=60)
             return None if r is None else r[2].raw.decode('latin-1')[:200]
 
+        churn_stop = [False]
+        churners = []
+
+        def churn(i):
+            while not churn_stop[0]:
+                c = nodeworld.RawClient(world)
+                c.request('activate', timeout=60)
+                sim.count('c18.subscriber-churn')
+                time.sleep(0.02 + 0.01 * i)
+                c.close()
+                time.sleep(0.01)
+        if shape.get('churn'):
+            cl.request('activate', timeout=60)
+            for i in range(shape['churn']):
+                churners.append(threading.Thread(target=churn, args=(i,), name=f'churn{i}'))
+                churners[-1].start()
+
         for op in case['ops']:
             before = snapshot()
             hw_before = dict(hw['st'])
@@ -415,6 +434,9 @@ class C18(Check):
                           'also_done': side is not None, 'hw_st': hw_before,
                           'xlog': list(hw.get('xlog', ()))})
             hw['xlog'] = []
+        churn_stop[0] = True
+        for th in churners:
+            th.join()
         cl.close()
         srv.secnode.shutdown_modules()
 
